@@ -40,6 +40,9 @@ type FlowOpts struct {
 	InQ          [3]int
 	StopAt       int // process stop at this many completed storage operations (0: none)
 	NoTick       bool // simulated time passes only when nothing else can happen
+	Generations  int  // incarnations (1: no restart)
+	FaultFreeAfterStop bool
+	StopW        int // weight of the environment action "stop the process"
 	ReqMix       [rkKinds]int
 	QuitMix      [4]int
 	FailFilter   int // permille of subscribe filters the broker fails
@@ -77,7 +80,9 @@ type Pub struct {
 	FirstWire  int // step of first complete PUBLISH on any connection (0 none)
 	WireConns  []int
 	OnlineAtRet bool
-	NetParks    int // network waits of the calling task during the call
+	NetParks    int  // network waits of the calling task during the call
+	Zombie      bool // the call returned after its process had been stopped
+	Resumed     bool // stored at a stop and adopted by a later incarnation
 }
 
 func (p *Pub) Accepted() bool { return p.Ret != 0 && p.Err == nil }
@@ -120,8 +125,15 @@ type Flow struct {
 	LastRSReturn int
 	InSent       int // application messages the broker has been given so far
 	Owned        map[uint16]int // inbound exactly-once identifiers whose marker is stored -> step of the Save
-	Mon    []Monitor
-	Refuse func(n int) byte
+	Stops      []*StopInfo
+	Carry      map[[2]int]bool // (incarnation, level): transfers of that level were pending at its adoption
+	Gen1Ops    int // storage operations of the first incarnation after InitSession
+	AdoptWarn  map[int][]error
+	AdoptFatal error
+	DamagedGen map[int]bool // incarnations adopted from a deliberately damaged image
+	Mon        []Monitor
+	BetweenGens func(f *Flow, gen int) // hook between a stop and the adoption (image damage)
+	Refuse     func(n int) byte
 }
 
 // Monitor is an oracle plugged into the flow.
@@ -498,8 +510,9 @@ func (f *Flow) pubTask(s *Sim, name string, n int) {
 		pb.RetTime = s.Now()
 		pb.OnlineAtRet = on && known
 		pb.NetParks = s.netParks[name] - parks0
+		pb.Zombie = s.dead
 		w.Ev("api", pb.Idx, "%s publish #%d -> %v", name, pb.Idx, err)
-		if err != nil && !errors.Is(err, mqtt.ErrMax) && !errors.Is(err, ErrDiskInjected) && !errors.Is(err, mqtt.ErrClosed) {
+		if err != nil && !s.dead && !errors.Is(err, mqtt.ErrMax) && !errors.Is(err, ErrDiskInjected) && !errors.Is(err, mqtt.ErrClosed) {
 			w.Violate("C14", "publish-error-class", "persisted", "persisted publish returned %v", err)
 		}
 	}
@@ -634,6 +647,19 @@ func (f *Flow) env() []Action {
 		}})
 	}
 	acts = append(acts, f.quitActions()...)
+	if f.O.StopW > 0 && w.Gen < f.O.Generations && f.C != nil && w.StopParam < 0 {
+		acts = append(acts, Action{Name: "stop", Weight: f.O.StopW, Run: func() {
+			w.Faults["stop_anywhere"]++
+			w.Ev("stop", 0, "process stops")
+			// storage operations in progress may or may not have reached the medium
+			for _, p := range s.parked {
+				if op, ok := p.op.(*diskOp); ok && (op.kind == 'S' || op.kind == 'D') && w.Tape.Flip("stop-applied", 300) {
+					w.Disk.applyInterrupted(op, p.g)
+				}
+			}
+			s.stop()
+		}})
+	}
 	if c := s.Cur(); f.InSent < f.O.Inbound && f.C != nil && c != nil && w.Broker.SessionOf(c) != nil {
 		acts = append(acts, Action{Name: "broker-publish", Weight: 6, Run: f.brokerPublish})
 	}
@@ -711,11 +737,19 @@ func (f *Flow) goalReached() bool {
 		}
 	}
 	for _, r := range f.Reqs {
-		if r.Invoke != 0 && r.Ret == 0 {
+		if r.Invoke != 0 && r.Ret == 0 && !r.Dead {
 			return false
 		}
 	}
 	for _, pb := range f.Pubs {
+		if pb.Gen != f.W.Gen {
+			// accepted by an earlier incarnation: done when its record
+			// is gone again
+			if pb.Resumed && !pb.Deleted {
+				return false
+			}
+			continue
+		}
 		if pb.Ret == 0 {
 			return false
 		}
@@ -840,6 +874,7 @@ type Req struct {
 	WireConn  int
 	Panic     string
 	OnlineInv bool
+	Dead      bool // its process stopped before the call returned
 }
 
 func (r *Req) Returned() bool { return r.Ret != 0 }
